@@ -138,6 +138,12 @@ Derive == /\ Mechanism = "iter_chromosomes" /\ status = "run" /\ nextName = "unf
 Next == Prime \/ Step \/ Deferred \/ Finish \/ SStep \/ Derive
 Spec == Init /\ [][Next]_vars
 
+\* Two genome contexts built separately are compatible (data tied to one may index data tied to the other) iff they list the same
+\* contigs in the same order; anything else is refused, never paired contig by contig (genome_context.py: is_compatible).
+ContextsCompatible(g1, g2) == g1 = g2
+Reversed(g) == [i \in DOMAIN g |-> g[Len(g) + 1 - i]]
+ReversedIsIncompatible == Len(Genome) >= 2 => ~ContextsCompatible(Genome, Reversed(Genome))
+
 \* ---------------------------------------------------------------- properties
 \* C12: evaluation never completes with entries left out or assigned to another contig
 NoSilentDrop == status = "completed" => (Compatible(groups) /\ out = Slots(groups))
